@@ -2,6 +2,7 @@
 (stateful, rule-based)."""
 import hashlib
 import os
+import pathlib
 import shutil
 import tempfile
 import time
@@ -25,7 +26,9 @@ RULE = ('Hypothesis RuleBasedStateMachine over one long-lived interpreter '
         'flagged surfaces, multi-particle importance decks, material decks, '
         'LIKE decks) and 5 option sets (one of them --cache); rules: convert(deck, options) '
         'in-process, convert_failing(fault-injected deck) which must raise, '
-        'reconvert(an earlier pair), every_ordered_pair(options) which '
+        'convert_default_output (no -o; input files are named with '
+        'the extensions .imcnp, .i, none and .v2.inp), reconvert(an earlier '
+        'pair), every_ordered_pair(options) which '
         'converts b right after a for all ordered pairs of pool decks, '
         'fresh_hashseed(deck, options, seed in '
         '{1, 2, random}). Invariants after every step: the bytes written '
@@ -50,6 +53,7 @@ OPTION_SETS = [[], ['--skip-deduplication'],
                # read by later ones) must not change what is written
                ['--cache']]
 CACHE_SUFFIXES = ('.volumes.cache', '.surfaces.cache', '.mcnp.cache')
+NAME_SUFFIXES = ('.imcnp', '.i', '', '.v2.inp')
 
 
 class Trace:
@@ -77,13 +81,18 @@ class World:
         self.n_fresh = 0
         conv.reload_repo()
         for i, d in enumerate(decks):
-            p = os.path.join(self.dir, 'deck%d.imcnp' % i)
+            # file names with the usual extension, another one, none, and
+            # two dots (the default output and the cache files are named
+            # after the input)
+            name = 'deck%d%s' % (i, NAME_SUFFIXES[i % len(NAME_SUFFIXES)])
+            p = os.path.join(self.dir, name)
             with open(p, 'w', encoding='utf-8', newline='') as f:
                 f.write(d['text'])
             self.paths.append(p)
             self.expected_files.add(os.path.basename(p))
             for suf in CACHE_SUFFIXES:
-                self.cache_files.add('deck%d%s' % (i, suf))
+                self.cache_files.add(
+                    os.path.basename(str(pathlib.Path(p).with_suffix(suf))))
             if d.get('fault_text'):
                 pf = os.path.join(self.dir, 'bad%d.imcnp' % i)
                 with open(pf, 'w', encoding='utf-8', newline='') as f:
@@ -119,9 +128,16 @@ class World:
             self.problem = (what, detail)
 
     def do_convert(self, i, oi, tag='convert'):
-        out = os.path.join(self.dir, 'inproc_%d.t4' % len(self.steps))
+        if tag == 'default-output':
+            # no -o: the output goes next to the input, suffix .t4
+            out = str(pathlib.Path(self.paths[i]).with_suffix('.t4'))
+        else:
+            out = os.path.join(self.dir, 'inproc_%d.t4' % len(self.steps))
         self.expected_files.add(os.path.basename(out))
-        res = conv.convert_path(self.paths[i], out, self.argv(i, oi))
+        if os.path.exists(out):
+            os.remove(out)
+        res = conv.convert_path(self.paths[i], out, self.argv(i, oi),
+                                default_output=(tag == 'default-output'))
         self.steps.append((tag, i, oi))
         got = res.t4_text if res.ok else 'FAILED: ' + str(res.exc_msg)
         want = self.fresh_output(i, oi)
@@ -312,6 +328,12 @@ def make_machine(tier, sink):
             self.world.do_convert(i, oi)
             self.pairs.append((i, oi))
 
+        @rule(i=st.integers(0, 9), oi=st.integers(0, len(OPTION_SETS) - 1))
+        def convert_default_output(self, i, oi):
+            i %= len(self.world.decks)
+            self.world.do_convert(i, oi, 'default-output')
+            self.pairs.append((i, oi))
+
         @rule(i=st.integers(0, 4), after=st.booleans())
         def convert_failing(self, i, after):
             if after and self.pairs:
@@ -413,7 +435,7 @@ def check(case):
     world = World(case['decks'])
     try:
         for s in case['steps']:
-            if s[0] in ('convert', 'reconvert'):
+            if s[0] in ('convert', 'reconvert', 'default-output'):
                 world.do_convert(s[1], s[2], s[0])
             elif s[0] == 'failing':
                 world.do_failing(s[1])
